@@ -85,7 +85,7 @@ def check_binary(ctx, dom, cfp, P, Q, rp, rq, fam, two_t_curve):
     rel = relation(c, P, Q)
     key = "%s|%s|%s|%s|%s" % (rel, rep_class(rp), rep_class(rq), "2t" if tt else "-", fam)
     # ---- addition (skip INF + INF as both are the same singleton: trivial but legal)
-    ctx.case("add." + rel, key=key)
+    ctx.case("add." + rel, key=key, sample=dict(curve=c.key(), A=sa, B=sb, expected_sum=E, points_equal=P == Q) if ctx.want("add." + rel) else None)
     try:
         Rr = A + B
         bad = judge_point(Rr, E, p)
@@ -120,7 +120,7 @@ def check_unary(ctx, dom, cfp, P, rp, fam, two_t_curve):
     sa = points.src(A)
     # double
     if A is not INFINITY:
-        ctx.case("double", key=key)
+        ctx.case("double", key=key, sample=dict(curve=c.key(), A=sa, expected=c.dbl(P)) if ctx.want("double") else None)
         try:
             bad = judge_point(A.double(), c.dbl(P), p)
         except Exception as e:
@@ -271,8 +271,8 @@ def _prod_add(ctx, dom, cfp, P, Q, rp, rq, cls, fam):
     rng = ctx.rng
     A, B = build(cfp, P, rp, rng), build(cfp, Q, rq, rng)
     E = cv.add(P, Q)
-    ctx.case(cls, key="%s|%s|%s" % (fam, rep_class(rp), rep_class(rq)))
     sa, sb = points.src(A), points.src(B)
+    ctx.case(cls, key="%s|%s|%s" % (fam, rep_class(rp), rep_class(rq)), sample=dict(curve=fam, A=sa, B=sb, expected=E) if ctx.want(cls) else None)
     try:
         bad = judge_point(A + B, E, p)
         want = P == Q
